@@ -158,7 +158,9 @@ class Ctx:
         if cur is None:
             self.atoms[key] = (lo, hi)
         else:
-            self.atoms[key] = (max(cur[0], lo) if lo is not None else cur[0], min(cur[1], hi) if hi is not None else cur[1])
+            nlo = cur[0] if lo is None else (lo if cur[0] is None else max(cur[0], lo))
+            nhi = cur[1] if hi is None else (hi if cur[1] is None else min(cur[1], hi))
+            self.atoms[key] = (nlo, nhi)
         return Lin(0, {key: 1})
 
     def len_key(self, x):
@@ -1207,6 +1209,8 @@ class Ctx:
                     r1, r2 = self.rng(self.b["locals"][k]["ty"]), self.rng(self.b["locals"][val]["ty"])
                     if r1 and r2:
                         self.extra.append(self.atom(("v", k), r1[0], r1[1]) - self.atom(("v", val), r2[0], r2[1]))
+            elif kind == "lt_len":
+                self.extra.append(self.atom(("v", k), 0, None) - self.atom(("len", val), 0, LEN_MAX) + Lin(1))
             elif kind == "le_len":
                 self.extra.append(self.atom(("v", k), 0, None) - self.atom(("len", val), 0, LEN_MAX))
 
@@ -1629,7 +1633,7 @@ def param_facts(u, fn):
                         break
                 if ok:
                     out.append(("le_param", j, k))
-        elif ty.replace("'_ ", "").lstrip("&") in ("[u8]", "str", "std::vec::Vec<u8>") and ty.startswith("&") and not ty.startswith("&mut"):
+        elif ty.startswith("&") and not ty.startswith("&mut") and (ty.replace("'_ ", "").lstrip("&").startswith("[") or ty.replace("'_ ", "").lstrip("&").startswith("std::vec::Vec<") or ty.replace("'_ ", "").lstrip("&") == "str"):
             ok = True
             for (p, cb, bb, args) in sites:
                 cx = cxs.setdefault(p, Ctx(cb, u))
@@ -1656,6 +1660,17 @@ def param_facts(u, fn):
                         break
                 if ok:
                     out.append(("le_len", j, "arg%d" % k))
+                    # strictly inside: a valid element index at every call site
+                    ok2 = True
+                    for (p, cb, bb, args) in sites:
+                        cx = cxs.setdefault(p, Ctx(cb, u))
+                        key = cx.len_key(args[k - 1])
+                        good, _h = cx.prove_le0(cx.lin(args[j - 1]) - cx.atom(key, 0, LEN_MAX) + Lin(1), bb)
+                        if not good:
+                            ok2 = False
+                            break
+                    if ok2:
+                        out.append(("lt_len", j, "arg%d" % k))
     _PF[fn] = out
     return out
 
